@@ -327,16 +327,30 @@ fn sensitivity(rep: &mut Report, r: &mut Rng, n_cases: u64) {
     for _ in 0..n_cases {
         let net = *r.pick(&[NetID::Custom02, NetID::Custom08, NetID::Testnet, NetID::Mainnet]);
         let height = 1_000_000 + r.below(1000);
+        // the three scalars range over everything a u128 can hold (the fee pool is not bounded by the coin-value cap)
+        let scalars: [u128; 12] = [0, 1, 1000, 1234567, (1 << 64) - 1, 1 << 64, (1 << 120) - 1, 1 << 120, (1 << 120) + 1, (1 << 120) + 777, 1 << 127, u128::MAX - 1];
+        let (sp, sm, sd) = (*r.pick(&scalars), *r.pick(&scalars), (*r.pick(&scalars)).max(1));
         let base = || {
             let mut f = Fab::new(net, height);
-            f.fee_pool = 1234567;
-            f.fee_multiplier = 1000;
-            f.dosc_speed = 777777;
+            f.fee_pool = sp;
+            f.fee_multiplier = sm;
+            f.dosc_speed = sd;
             f.coins.push((CoinID { txhash: TxHash(HashVal([9u8; 32])), index: 0 }, CoinDataHeight { coin_data: CoinData { covhash: addr_of(&always_true_cov()), value: CoinValue(5000), denom: Denom::Mel, additional_data: Bytes::new() }, height: BlockHeight(height - 1) }));
             f.stakes.push((TxHash(HashVal([8u8; 32])), StakeDoc { pubkey: key_n(1, 1).pk, e_start: 0, e_post_end: 100, syms_staked: CoinValue(10) }));
             f
         };
         let h0 = base().build(&new_db()).header();
+        rep.eval();
+        if sp > (1 << 120) {
+            rep.count("sibling pairs with a fee pool above 2^120");
+        }
+        if h0.fee_pool.0 != sp || h0.fee_multiplier != sm || h0.dosc_speed != sd {
+            rep.violate(
+                &format!("C07|header-misreports-scalar|header|{}", if h0.fee_pool.0 != sp { "fee-pool" } else if h0.fee_multiplier != sm { "fee-multiplier" } else { "dosc-speed" }),
+                format!("the header of a state with fee pool {}, fee multiplier {}, DOSC speed {} carries {}, {}, {}", sp, sm, sd, h0.fee_pool.0, h0.fee_multiplier, h0.dosc_speed),
+                json!({"net": format!("{:?}", net), "height": height, "header": header_json(&h0)}),
+            );
+        }
         let variants: Vec<(&str, Box<dyn Fn(&mut Fab)>)> = vec![
             ("coin-value", Box::new(|f: &mut Fab| f.coins[0].1.coin_data.value = CoinValue(5001))),
             ("coin-covhash", Box::new(|f: &mut Fab| f.coins[0].1.coin_data.covhash = melstructs::Address(HashVal([1u8; 32])))),
@@ -409,10 +423,11 @@ pub fn run(p: &Params) -> Report {
     let mine = p.share(total);
     let mut rng = Rng::new(p.shard_seed() ^ 0xC07);
     let mut mon = C07 { rep: Report::new("C07"), case_seed: 0, headers: vec![], r: Rng::new(p.shard_seed() ^ 7) };
-    mon.rep.rule = "cases = (a) every sealed state of random histories on all network classes (sparse and TIP-908 dense transaction commitments): height/previous/network chaining, history(h) for every recorded ancestor, coins/pools/history/stakes/transactions roots recomputed from the iterated contents with an independent reference Merkle function, inclusion proofs for entries (all, or 24 sampled per tree) verified by the library and by the reference verifier, tampered values and absent keys, every block transaction at its sorted position; (b) equal coin/pool maps built by 4 different operation orders incl. create-then-spend detours and overwrites; (c) sibling fabricated states differing in exactly one of 19 components (incl. zero-valued stakes, coins and pools). Non-trivial = sealed state with transactions, each order case, each sibling pair; distinct by header hash / case".into();
+    mon.rep.rule = "cases = (a) every sealed state of random histories on all network classes (sparse and TIP-908 dense transaction commitments): height/previous/network chaining, history(h) for every recorded ancestor, coins/pools/history/stakes/transactions roots recomputed from the iterated contents with an independent reference Merkle function, inclusion proofs for entries (all, or 24 sampled per tree) verified by the library and by the reference verifier, tampered values and absent keys, every block transaction at its sorted position; (b) equal coin/pool maps built by 4 different operation orders incl. create-then-spend detours and overwrites; (c) sibling fabricated states differing in exactly one of 19 components (incl. zero-valued stakes, coins and pools; fee pool, fee multiplier and DOSC speed drawn from 0 .. 2^128-2 incl. both sides of 2^64 and 2^120), whose headers must also carry the three scalars unchanged. Non-trivial = sealed state with transactions, each order case, each sibling pair; distinct by header hash / case".into();
     if p.only_case.is_none() {
         mon.rep.require("sealed states checked", p.n(1200, 24000));
         mon.rep.require("single-component sibling pairs", p.n(100, 2000));
+        mon.rep.require("sibling pairs with a fee pool above 2^120", p.n(8, 200));
     }
     let mut r2 = Rng::new(p.shard_seed() ^ 0x707);
     order_independence(&mut mon.rep, &mut r2, p.share(p.n(1500, 40000)));
